@@ -443,3 +443,54 @@ def gen_dump_file(rng):
             elfgen.Sec('.bss', 8, flags=3, data=b'', size=16)]
     img, info = elfgen.build(cls=cls, le=le, machine=machine, etype=1, sections=secs)
     return img, dict(cls=cls, text=len(text), strings=len(strs))
+
+
+def gen_sections_file(rng):
+    """-> (image, description): a relocatable object with the section kinds assemblers write - groups, merge/string
+    sections with entry sizes, relocation sections with link/info, init arrays, notes, NOBITS, large alignments,
+    an extended symbol index table - and, sometimes, more than a hundred sections."""
+    cls = rng.choice([32, 64])
+    le = rng.random() < 0.7
+    E = '<' if le else '>'
+    is64 = cls == 64
+    machine = rng.choice([62, 183, 21]) if is64 else rng.choice([3, 40, 8])       # machines the clone has relocation names for
+    rtype = {62: 2, 183: 257, 21: 38, 3: 2, 40: 2, 8: 2}[machine]
+    symsz = 24 if is64 else 16
+    relasz = (24 if is64 else 12)
+
+    def blob(n):
+        return bytes(rng.getrandbits(8) for _ in range(n))
+    names = ['', 'grp_sig', 'f', 'v']
+    tab, offs = elfgen.strtab([n.encode() for n in names])
+    many = rng.random() < 0.25
+    secs = [elfgen.Sec('.text', 1, flags=6, data=blob(rng.choice([4, 64])), align=rng.choice([4, 16, 4096])),
+            elfgen.Sec('.data', 1, flags=3, data=blob(8), align=8),
+            elfgen.Sec('.bss', 8, flags=3, data=b'', size=rng.choice([1, 64, 0x12345]), align=rng.choice([1, 32])),
+            elfgen.Sec('.rodata.str1.1', 1, flags=0x32, data=b'hello\0world\0', entsize=1),
+            elfgen.Sec('.rodata.cst8', 1, flags=0x12, data=blob(16), entsize=8, align=8),
+            elfgen.Sec('.init_array', 14, flags=3, data=blob(cls // 8), entsize=cls // 8, align=cls // 8),
+            elfgen.Sec('.note.GNU-stack', 1, flags=0, data=b''),
+            elfgen.Sec('.comment', 1, flags=0x30, data=b'GCC: (GNU) 12\0', entsize=1)]
+    if rng.random() < 0.7:
+        secs.append(elfgen.Sec('.group', 17, data=struct.pack(E + 'II', 1, 12), link='.symtab', info=1, entsize=4, align=4))
+        secs.append(elfgen.Sec('.text._Z1fv', 1, flags=0x206, data=blob(8), align=16))
+    if rng.random() < 0.5:
+        secs.append(elfgen.Sec('.tdata', 1, flags=0x403, data=blob(8), align=8))
+        secs.append(elfgen.Sec('.tbss', 8, flags=0x403, data=b'', size=16, align=8))
+    if many:
+        for i in range(rng.choice([95, 130])):
+            secs.append(elfgen.Sec('.text.f%d' % i, 1, flags=6, data=blob(2), align=2))
+    # relocations against .text with link -> .symtab and info -> .text
+    rel = struct.pack(E + ('QQq' if is64 else 'IIi'), 0, ((2 << 32) | rtype) if is64 else ((2 << 8) | rtype), -4)
+    secs.append(elfgen.Sec('.rela.text', 4, flags=0x40, data=rel, link='.symtab', info='.text', entsize=relasz, align=8))
+    xidx = rng.random() < 0.4
+    syms = [elfgen.sym_pack(E, is64, 0, 0, 0, 0, 0, 0),
+            elfgen.sym_pack(E, is64, offs[b'grp_sig'], 0, 0, 0x12, 0, 1),
+            elfgen.sym_pack(E, is64, offs[b'f'], 0, 4, 0x12, 0, 0xffff if xidx else 1),
+            elfgen.sym_pack(E, is64, offs[b'v'], 8, 8, 0x11, 0, 2)]
+    secs.append(elfgen.Sec('.symtab', 2, data=b''.join(syms), link='.strtab', info=1, entsize=symsz, align=8))
+    if xidx:
+        secs.append(elfgen.Sec('.symtab_shndx', 18, data=struct.pack(E + 'IIII', 0, 0, 1, 0), link='.symtab', entsize=4, align=4))
+    secs.append(elfgen.Sec('.strtab', 3, data=tab))
+    img, info = elfgen.build(cls=cls, le=le, machine=machine, etype=1, sections=secs)
+    return img, dict(cls=cls, le=le, machine=machine, sections=len(secs), many=many, xindex=xidx)
